@@ -177,7 +177,8 @@ Patterns == <<
      Global("g", <<RefX("c.global", "g", "implicit")>>), Global("h", <<Ref("c.global", "t$x")>>), Global("a", <<Ref("c.global", "z z")>>),
      Global("b", <<Ref("c.global", "$t")>>), Global("x", <<Ref("c.global", "t")>>),
      Def("f", <<RefX("c.func", "f", "implicit")>>, << Loc("entry", "block", <<>>) >>), Global("p", <<Ref("c.global", ".t")>>), Global("r", <<Ref("c.global", "10")>>),
-     Global("10", <<RefX("c.global", "10", "implicit")>>) >>,       \* @"10": a NAME made of digits, in the comdat of the same name
+     Global("10", <<RefX("c.global", "10", "implicit")>>),          \* @"10": a NAME made of digits, in the comdat of the same name
+     Global("m", <<Ref("c.global", "f")>>) >>,                       \* one comdat used by a function and by a variable
   \* 23: funclet exception handling: every label and pad reference of catchswitch / catchpad / catchret / cleanuppad / cleanupret
   << Decl("h", <<>>), Decl("p", <<>>),
      Def("f", <<Ref("g.personality", "p")>>, << Loc("entry", "block", <<>>),
@@ -208,6 +209,12 @@ Patterns == <<
   << DeclP("f", <<>>, << Loc("x", "param", <<>>), Loc("", "param", <<>>), Loc("y", "param", <<>>) >>),
      DeclP("g", <<>>, << Loc("x", "param", <<>>), Loc("y", "param", <<>>) >>),
      Def("h", <<>>, << Loc("x", "param", <<>>), Loc("y", "param", <<>>), Loc("entry", "block", <<>>), Loc("a", "inst", <<Ref("l.operand", "x"), Ref("l.operand", "y")>>) >>) >>,
+  \* 30: an UNNAMED block after a named entry block (it is %0: no parameter or instruction is unnamed), referenced by a
+  \*     branch and by blockaddress from a global initialiser and from an earlier function (LLVM: the address of a numeric
+  \*     label cannot be taken after the function is defined)
+  << Global("g", <<RefX("l.baddr", "f", "n0")>>),
+     Def("h", <<>>, << Loc("entry", "block", <<>>), Loc("x", "inst", <<RefX("l.baddr", "f", "n0")>>), Loc("y", "inst", <<RefX("l.baddr", "f", "entry")>>) >>),
+     Def("f", <<>>, << Loc("entry", "block", <<Ref("l.target", "n0"), Ref("l.target", "bb")>>), Loc("", "block", <<Ref("l.target", "bb")>>), Loc("bb", "block", <<>>) >>) >>,
   \* 27: blockaddress constants inside metadata nodes, next to ones in a global and in a function (all join the same fix-up list)
   << Md("1", <<RefX("l.baddr", "f", "bb")>>), Global("g", <<RefX("l.baddr", "f", "bb")>>), Md("0", <<RefX("l.baddr", "h", "bb"), Ref("m.tuple", "1")>>),
      Def("f", <<>>, << Loc("entry", "block", <<Ref("l.target", "bb")>>), Loc("bb", "block", <<>>), Loc("x", "inst", <<RefX("l.baddr", "h", "bb")>>) >>),
